@@ -177,17 +177,12 @@ def run(ctx: Context) -> None:
         ctx.check('R04.6', len(lookups) == 1 and len(lookups[0].args) == 1
                   and flow.canon(lookups[0].args[0]) == ('param', fi.params[1]),
                   "one lookup of the point argument", fi, lookups[0] if lookups else fi.node)
+        from .common import known_none
         raises = [n for k, n in cfg.exits() if k == 'raise']
-        guarded = False
-        for rs in raises:
-            for st, in_body in enclosing_ifs(fi, rs):
-                t = st.test
-                if isinstance(t, ast.Compare) and len(t.ops) == 1 and isinstance(t.ops[0], ast.Is) \
-                        and is_none(t.comparators[0]) and in_body and lookups \
-                        and flow.reaches(t.left, lambda n: n is lookups[0]):
-                    guarded = True
-        ctx.check('R04.6', guarded, "raises when the lookup returned None", fi, raises[0] if raises else fi.node,
-                  construct='raise under `<lookup> is None`: ' + ('present' if guarded else 'absent'))
+        is_lookup = lambda e: bool(lookups) and flow.reaches(e, lambda n: n is lookups[0])  # noqa: E731
+        guarded = bool(raises) and all(known_none(fi, rs, is_lookup) is True for rs in raises)
+        ctx.check('R04.6', guarded, "raises exactly on the paths where the lookup returned None", fi, raises[0] if raises else fi.node,
+                  construct='raise reached only when `<lookup> is None`: ' + ('yes' if guarded else 'no'))
         ok = False
         bad = fi.node
         for r in fi.returns():
@@ -196,7 +191,7 @@ def run(ctx: Context) -> None:
             if isinstance(v, ast.Call) and isinstance(v.func, ast.Attribute) and v.func.attr == 'select_index' and v.args:
                 a = flow.resolve(v.args[0])
                 if isinstance(a, ast.Attribute) and a.attr == 'index' and lookups \
-                        and flow.reaches(a.value, lambda n: n is lookups[0]):
+                        and flow.reaches(a.value, lambda n: n is lookups[0]) and known_none(fi, r, is_lookup) is False:
                     ok = True
         ctx.check('R04.6', ok, "returns select_index(<item>.index) for the item found", fi, bad)
 
